@@ -571,7 +571,7 @@ func (d *drv) nextSentinelNTP() []byte {
 
 func (d *drv) sentinelFor(listener int) []byte {
 	h := &pktSpec{dstIA: 0x0001ff0000000112, srcIA: 0x0001ff0000000111,
-		dstRaw: []byte{10, 9, 8, 7}, srcRaw: append([]byte(nil), d.hIP...), auth: -1,
+		dstRaw: append([]byte(nil), d.hIP...), srcRaw: append([]byte(nil), d.hIP...), auth: -1,
 		udpSrc: 31002, udpDst: uint16(scionPort)}
 	if listener == 2 {
 		d.seq++
@@ -594,6 +594,19 @@ func (d *drv) seqOK(x uint32) bool {
 		return d.seqLo <= x && x <= d.seq
 	}
 	return x == d.seq
+}
+
+// isSentinelAny: the sentinel request itself (forwarded) or an answer to it
+func (d *drv) isSentinelAny(b []byte) bool {
+	if d.isSentinelReply(b) {
+		return true
+	}
+	p := parse(b)
+	if p.ok && p.isUDP && len(p.udp.Payload) >= ntp.PacketLen {
+		pl := p.udp.Payload
+		return binary.BigEndian.Uint32(pl[40:]) == sentinelSecs && d.seqOK(binary.BigEndian.Uint32(pl[44:]))
+	}
+	return false
 }
 
 func (d *drv) isSentinelReply(b []byte) bool {
@@ -652,18 +665,23 @@ func (d *drv) exchange(sender, listener int, pkt []byte) (reps []obs, nsent int)
 	deadline := time.Now().Add(readTimeout)
 	// the sentinel's SCION source is the harness socket srcSock: an answer that
 	// goes there instead of to the previous hop ends the wait (reported as -1)
-	srcSock := nSenders + 4
 	misdirected := false
 	for !misdirected {
 		c.SetReadDeadline(time.Now().Add(200 * time.Millisecond))
 		n, _, err := c.ReadFromUDP(buf)
 		if err != nil {
-			if sender != srcSock {
-				for _, b := range drain(d.socks[srcSock]) {
-					if d.isSentinelReply(b) {
+			// the sentinel (or its answer) turning up at another harness socket - the SCION source
+			// address of the sentinel, or the socket at <SCION destination host>:<service port> when the
+			// listener forwards instead of serving - ends the wait: misdirected
+			for i := nSenders; i < len(d.socks); i++ {
+				if i == sender {
+					continue
+				}
+				for _, b := range drain(d.socks[i]) {
+					if d.isSentinelAny(b) {
 						misdirected = true
 					} else {
-						reps = append(reps, obs{srcSock, b})
+						reps = append(reps, obs{i, b})
 					}
 				}
 			}
@@ -696,6 +714,8 @@ func (d *drv) exchange(sender, listener int, pkt []byte) (reps []obs, nsent int)
 				if nsent >= 0 {
 					nsent++
 				}
+			} else if d.isSentinelAny(b) {
+				nsent = -1
 			} else {
 				reps = append(reps, obs{i, b})
 			}
